@@ -357,12 +357,16 @@ fn append_txt_record(
     // TTL for the answer
     append_u32(out, ttl_secs);
 
-    // Add the strings.
-    if value.len() > MAX_TXT_VALUE_LENGTH {
+    // Add the strings. The length byte of the `<character-string>` counts the bytes
+    // actually written, i.e. the quoted and escaped form of `value`, hence it is
+    // filled in after the string has been appended.
+    let mut buffer = vec![0];
+    append_character_string(&mut buffer, value)?;
+    let string_len = buffer.len() - 1;
+    if string_len > MAX_TXT_VALUE_LENGTH {
         return Err(MdnsResponseError::TxtRecordTooLong);
     }
-    let mut buffer = vec![value.len() as u8];
-    append_character_string(&mut buffer, value)?;
+    buffer[0] = string_len as u8;
 
     append_u16(out, buffer.len() as u16);
     out.extend_from_slice(&buffer);
